@@ -253,6 +253,13 @@ def _execute(record, root):
                     if fr[s].shape != x.shape or np.abs(fr[s] - x).max() > 0.5000001e-5:
                         failures.append(core.fail("values/xyz", f"mol {m}: XYZ frame {s} does not match the coordinates of step {s}"))
                         break
+                # the comment line of a frame (step label, E_total) is that of the frame's own step: the dense
+                # run wrote a frame at every step
+                cm = lambda raw: {int(l.split()[1]): l for l in raw.decode(errors="replace").split("\n") if l.startswith("step:")}
+                cs, cd = cm(got[f"{m}:xyz:raw"]), cm(ref[f"{m}:xyz:raw"])
+                badc = [s for s in want if cs.get(s) != cd.get(s)]
+                if badc:
+                    failures.append(core.fail("values/xyz", f"mol {m}: comment line of XYZ frame(s) {badc[:6]} is {cs.get(badc[0])!r} but the system had {cd.get(badc[0])!r} at that step (xyz every {cfg['out']['xyz']}, data every {h5c.get('data')}, screen every {cfg['out']['print']})"))
 
     # ---- screen and checkpoint streams -----------------------------------------------------------
     if cfg["out"]["molid"]:
